@@ -194,6 +194,19 @@ func (g *gctx) scalar() (string, string) {
 			`{or: [{type: "integer", min: 5}, {type: "string", maxLength: 3}]}`,
 		})
 	default:
+		if r.pct(50) {
+			// `or` over 2-4 type names (built-in and user types), repeats allowed
+			pool := append([]string{"string", "integer", "float", "boolean", "email", "uuid", "date", "null"}, g.names...)
+			n := 2 + r.n(3)
+			parts := make([]string, n)
+			for i := range parts {
+				parts[i] = `"` + r.pick(pool) + `"`
+				if i >= 1 && r.pct(30) {
+					parts[i] = parts[r.n(i)]
+				}
+			}
+			return r.pick([]string{`1`, `"s"`, `true`, `"a@b.cc"`}), `{or: [` + strings.Join(parts, ", ") + `]}`
+		}
 		if len(g.names) >= 2 {
 			a, b := r.pick(g.names), r.pick(g.names)
 			return r.pick([]string{`1`, `"s"`, `true`}), `{or: ["` + a + `", "` + b + `"]}`
@@ -219,8 +232,18 @@ func (g *gctx) value(ind string) string {
 	case c < 10:
 		return g.array(ind)
 	case c < 13 && len(g.names) > 0:
-		if r.pct(30) && len(g.names) > 1 {
-			return r.pick(g.names) + " | " + r.pick(g.names)
+		if r.pct(35) && len(g.names) > 1 {
+			// a union of 2-4 names; the same name may come twice (alternatives that
+			// render identically are where de-duplication logic has something to do)
+			n := 2 + r.n(3)
+			parts := make([]string, n)
+			for i := range parts {
+				parts[i] = r.pick(g.names)
+				if i >= 2 && r.pct(40) {
+					parts[i] = parts[r.n(i)]
+				}
+			}
+			return strings.Join(parts, " | ")
 		}
 		return r.pick(g.names)
 	default:
@@ -269,11 +292,16 @@ func (g *gctx) object(ind string) string {
 		n++
 	}
 	in2 := ind + "  "
+	var keys []string
 	for i := 0; i < n; i++ {
 		key := `"` + r.pick([]string{"a", "b", "c", "id", "name", "k" + strconv.Itoa(r.n(9))}) + strconv.Itoa(i) + `"`
 		if len(g.names) > 0 && r.pct(7) {
 			key = r.pick(g.names) // key shortcut
 		}
+		if i >= 1 && r.pct(4) {
+			key = keys[r.n(i)] // a duplicate key: rejected
+		}
+		keys = append(keys, key)
 		v, a := splitAnn(g.value(in2))
 		sb.WriteString(in2 + key + ": " + v)
 		if i != n-1 {
@@ -294,9 +322,18 @@ func (g *gctx) array(ind string) string {
 	}
 	sb.WriteString("[" + head + "\n")
 	n := r.n(3)
+	if r.pct(25) {
+		n = 3 + r.n(3)
+	}
 	in2 := ind + "  "
+	var elems [][2]string
 	for i := 0; i < n; i++ {
 		v, a := splitAnn(g.value(in2))
+		if i >= 1 && r.pct(30) {
+			e := elems[r.n(i)] // the same element again
+			v, a = e[0], e[1]
+		}
+		elems = append(elems, [2]string{v, a})
 		sb.WriteString(in2 + v)
 		if i != n-1 {
 			sb.WriteString(",")
@@ -602,6 +639,18 @@ func genProject(r *rng, tornPct int) Project {
 	return p
 }
 
+// A regex-typed user type is turned into a JSight type from the regex object's
+// *next* example at every registration (stateful by design), so registering one
+// regex object with two schemas gives the second another example: not shared.
+func hasRegexType(p *Project) bool {
+	for _, t := range p.Types {
+		if t.Kind == "r" {
+			return true
+		}
+	}
+	return false
+}
+
 func pickEnum(r *rng) string {
 	if r.pct(50) {
 		return genEnumText(r)
@@ -773,6 +822,7 @@ func genWorldC10(seed uint64, faults bool) *World {
 		w.Cfg.PoolFreshPct, w.Cfg.PoolAnyPct, w.Cfg.PoolDropPct = 0, 0, 0
 	}
 	nobj := 2 + r.n(5)
+	shareTypes := r.pct(35)
 	torn := 0
 	if faults {
 		torn = []int{0, 20, 50}[r.n(3)]
@@ -782,8 +832,32 @@ func genWorldC10(seed uint64, faults bool) *World {
 		var p Project
 		if o > 0 && r.pct(15) {
 			p = w.Objects[r.n(o)] // the same input again, later in the history
+			p.ShareWith = 0
 		} else {
 			p = genProject(r, torn)
+		}
+		if o > 0 && shareTypes && r.pct(30) {
+			// another schema of the same "API project": it registers the very type and
+			// rule objects an earlier schema registered (all of them, in the same order)
+			d := r.n(o)
+			if dp := w.Objects[d]; dp.Kind == "jschema" && dp.ShareWith == 0 && len(dp.Types)+len(dp.Rules) > 0 && !hasRegexType(&dp) {
+				var names, enums []string
+				for _, t := range dp.Types {
+					names = append(names, t.Name)
+				}
+				for _, t := range dp.Rules {
+					enums = append(enums, t.Name)
+				}
+				p = Project{Kind: "jschema", Name: []string{"root", "other.jst", "x"}[r.n(3)], Types: dp.Types, Rules: dp.Rules, ShareWith: d + 1}
+				if len(names) == 0 {
+					names = []string{"@a"}
+				}
+				if r.pct(30) {
+					p.Text = dp.Text
+				} else {
+					p.Text = genSchemaText(r, names, enums)
+				}
+			}
 		}
 		w.Objects = append(w.Objects, p)
 		q := []Op{{Obj: o, Kind: "build"}}
